@@ -22,7 +22,8 @@ Inductive skind := Threaded | Pool | OneShot | Forking.
 Record facts := {
   pool_close_drops : bool;      (* ThreadPoolServer.close closes the connections still in fd_to_conn *)
   pool_fail_discards : bool;    (* ThreadPoolServer._accept_method removes the socket from self.clients when building the connection failed *)
-  fork_parent_keeps : bool      (* ForkingServer's parent keeps the accepted socket in self.clients (so that close() reaches it) *)
+  fork_parent_keeps : bool;     (* ForkingServer's parent keeps the accepted socket in self.clients (so that close() reaches it) *)
+  pool_catches_base : bool      (* ThreadPoolServer._serve_requests catches a BaseException that is not an Exception (drops that connection) *)
 }.
 Record cfg := { kind : skind; fx : facts; has_auth : bool; class_svc : bool; nworkers : nat; batch : nat }.
 
@@ -45,7 +46,7 @@ Inductive sinstr :=
 | DLookupDeleteGuarded | DCloseIfFound
 | RForEach | RUnregister | RIfErrorDrop | RElseEnqueue | RKeyErrorPass
 | LWhileActive | LPoll | LHandle | LExceptSleep
-| QForBatch | QPollServes | QIfNothingAddInactiveReturn | QEOFDropReturn | QOtherRequeueRaise | QBatchDoneRequeue
+| QForBatch | QPollServes | QIfNothingAddInactiveReturn | QEOFDropReturn | QOtherRequeueRaise | QBaseDropReturn | QBatchDoneRequeue
 | XWhileActive | XBlockingGet | XIfFdServe | XEmptyPass | XExceptSleep
 | IRegisterREH | IUnregisterGuarded.
 
@@ -75,14 +76,17 @@ Definition pool_build_prog := [PBIfAuthenticator; PBAuthenticate; PBPeerName; PB
 Definition drop_prog := [DLookupDeleteGuarded; DCloseIfFound].                                       (* drop *)
 Definition poll_result_prog := [RForEach; RUnregister; RIfErrorDrop; RElseEnqueue; RKeyErrorPass].   (* poll_step *)
 Definition poller_prog := [LWhileActive; LPoll; LHandle; LExceptSleep].
-Definition serve_requests_prog := [QForBatch; QPollServes; QIfNothingAddInactiveReturn; QEOFDropReturn; QOtherRequeueRaise;
-                                   QBatchDoneRequeue].                                                (* serve_step *)
+Definition serve_requests_prog_of (catches_base : bool) :=
+  [QForBatch; QPollServes; QIfNothingAddInactiveReturn; QEOFDropReturn; QOtherRequeueRaise]
+  ++ (if catches_base then [QBaseDropReturn] else []) ++ [QBatchDoneRequeue].                         (* serve_step *)
 Definition pool_worker_prog := [XWhileActive; XBlockingGet; XIfFdServe; XEmptyPass; XExceptSleep].   (* take_step *)
 Definition add_inactive_prog := [IRegisterREH].
 Definition remove_inactive_prog := [IUnregisterGuarded].
 
 Inductive auth := AuthOk | AuthFail | AuthStall.   (* what the client does about authentication: pass, fail, never finish *)
-Inductive req := QRoot | QBump (o : oid) | QMake (o : oid) | QStr (o : oid) | QDel (o : oid) | QClose.
+Inductive req := QRoot | QBump (o : oid) | QMake (o : oid) | QStr (o : oid) | QDel (o : oid) | QClose
+| QKill.   (* not a request: a message whose processing ends in a BaseException that is not an Exception, e.g. an unsolicited reply
+              carrying a remote reference -> nested HANDLE_INSPECT -> answered with an exception record for SystemExit *)
 Inductive reply := POid (o : oid) | PVal (n : nat) | POk | PErr.
 Inductive stage :=
 | Fresh         (* never connected *)
@@ -114,7 +118,8 @@ Record st := {
   fdmap : list cid;                        (* ThreadPoolServer.fd_to_conn *)
   pollset : list cid;                      (* registered in poll_object *)
   queue : list cid;                        (* _active_connection_queue, head first *)
-  workers : list (option (cid * nat));     (* pool workers: idle, or inside _serve_requests(c) with n polls of the batch left *)
+  workers : list (option (cid * nat));     (* pool workers: idle, or inside _serve_requests(c) with n >= 1 polls of the batch left;
+                                              (c, 0): the thread DIED while it held c *)
   shared : svc;                            (* the one service instance when an instance (not a class) is registered *)
   conns : cid -> conn;
   accepted : list cid;                     (* ghost: accepted connections, oldest first *)
@@ -196,7 +201,8 @@ Definition fresh_conn : conn :=
      own := {| cnt := 0; nmade := 0 |}; table := []; out := []; hist := [] |}.
 
 (* ---- what a reader makes of the bytes in a connection's buffer ---- *)
-Inductive nxt := NEmpty | NBlock | NBad (rest : list byte) | NNop (rest : list byte) | NReq (q : req) (rest : list byte).
+Inductive nxt := NEmpty | NBlock | NBad (rest : list byte) | NNop (rest : list byte) | NReq (q : req) (rest : list byte)
+| NKill (rest : list byte).
 
 Section Server.
 Variable decomp : list byte -> option (list byte).      (* zlib.decompress: None = zlib.error *)
@@ -215,7 +221,7 @@ Definition next_input (buf : list byte) : nxt :=
            match (if Byte.eqb fl x00 then Some payload else decomp payload) with
            | None => NBad rest
            | Some [] => NNop rest                       (* Connection.serve: `if not data: return False` *)
-           | Some d => match decode d with Some q => NReq q rest | None => NBad rest end
+           | Some d => match decode d with Some QKill => NKill rest | Some q => NReq q rest | None => NBad rest end
            end
   | _ => NBlock
   end.
@@ -233,6 +239,7 @@ Definition serve_req (c : cid) (v : svc) (tb : list oid) (q : req) : svc * list 
   | QStr o => (v, tb, if omem o tb then POk else PErr)
   | QDel o => if omem o tb then (v, orm1 o tb, POk) else (v, tb, PErr)
   | QClose => (v, tb, POk)
+  | QKill => (v, tb, PErr)
   end.
 Definition is_close (q : req) : bool := match q with QClose => true | _ => false end.
 
@@ -316,7 +323,7 @@ Definition work (c : cid) (s : st) : option st :=
            | NReq q rest =>
                let s1 := serve_on s c q rest in
                if is_close q then Some (finish_own c s1) else Some s1
-           | NBad rest => Some (finish_own c (set_conn s c (close_conn (k_inb k rest))))
+           | NBad rest | NKill rest => Some (finish_own c (set_conn s c (close_conn (k_inb k rest))))
            | NNop rest => Some (set_conn s c (k_inb k rest))
            | NBlock | NEmpty => if gone k then Some (finish_own c (set_conn s c (close_conn k))) else None
            end
@@ -345,11 +352,12 @@ Definition poll_step (c : cid) (hup : bool) (s : st) : option st :=
 Definition take_step (w : nat) (s : st) : option st :=
   match nth_error (workers s) w, queue s with
   | Some None, c :: rest =>
-      if active s then Some (with_pool s (fdmap s) (pollset s) rest (set_nth w (Some (c, batch K)) (workers s))) else None
+      if active s then Some (with_pool s (fdmap s) (pollset s) rest (set_nth w (Some (c, Nat.max 1 (batch K))) (workers s))) else None
   | _, _ => None
   end.
 Definition serve_step (w : nat) (s : st) : option st :=
   match nth_error (workers s) w with
+  | Some (Some (c, O)) => None                                                        (* the thread is dead *)
   | Some (Some (c, n)) =>
       let k := conns s c in
       if negb (mem c (fdmap s)) then Some (enqueue (set_worker s w None) c)           (* KeyError: back to the queue *)
@@ -363,6 +371,9 @@ Definition serve_step (w : nat) (s : st) : option st :=
                     end
            | NBad rest => Some (enqueue (set_worker (set_conn s c (k_inb k rest)) w None) c)
            | NNop rest => Some (add_inactive (set_worker (set_conn s c (k_inb k rest)) w None) c)
+           | NKill rest =>
+               if pool_catches_base (fx K) then Some (drop c (set_worker (set_conn s c (k_inb k rest)) w None))
+               else Some (set_worker (set_conn s c (k_inb k rest)) w (Some (c, O)))   (* escapes both handlers: the worker thread ends *)
            | NBlock => if gone k then Some (drop c (set_worker s w None)) else None
            | NEmpty => if gone k then Some (drop c (set_worker s w None)) else Some (add_inactive (set_worker s w None) c)
            end
@@ -449,6 +460,7 @@ Definition req_of_sx (x : sx) : option req :=
   | SL [SI 3; o] => Some (QStr (oid_of_sx o))
   | SL [SI 4; o] => Some (QDel (oid_of_sx o))
   | SL [SI 5] => Some QClose
+  | SL [SI 6] => Some QKill
   | _ => None
   end%Z.
 Definition sx_oid (o : oid) : sx := SL [snat (fst o); snat (snd o)].
@@ -511,9 +523,9 @@ Definition sx_state (s : st) : sx :=
      (2 ev)  is the event enabled? (no state change) *)
 Definition run_server (x : sx) : sx :=
   match x with
-  | SL [SL [kd; f1; f2; f3; au; cl; nw; bt]; SL dtbl; SL ztbl; SL script] =>
+  | SL [SL [kd; f1; f2; f3; f4; au; cl; nw; bt]; SL dtbl; SL ztbl; SL script] =>
       let K := {| kind := kind_of_z (sx_z kd);
-                  fx := {| pool_close_drops := sx_bool f1; pool_fail_discards := sx_bool f2; fork_parent_keeps := sx_bool f3 |};
+                  fx := {| pool_close_drops := sx_bool f1; pool_fail_discards := sx_bool f2; fork_parent_keeps := sx_bool f3; pool_catches_base := sx_bool f4 |};
                   has_auth := sx_bool au; class_svc := sx_bool cl; nworkers := sx_nat nw; batch := sx_nat bt |} in
       let dt := map (fun e => match e with SL [SB a; q] => (a, req_of_sx q) | _ => ([], None) end) dtbl in
       let zt := map (fun e => match e with SL [SB a; SB b] => (a, b) | _ => ([], []) end) ztbl in
